@@ -545,7 +545,7 @@ Lemma c14_plane_ok_exact a b p : c14_triple a b p = 0 -> c14_plane_ok a b p = tr
 Proof.
   intros H. unfold c14_plane_ok. rewrite H.
   pose proof (c14_nsq_nonneg a). pose proof (c14_nsq_nonneg b). pose proof (c14_nsq_nonneg p).
-  assert (0 <= c14_EPS_num * c14_EPS_num) by nia.
+  assert (0 <= c14_TOL_num * c14_TOL_num) by nia.
   assert (0 <= c14_nsq a * c14_nsq b * c14_nsq p) by nia.
   nia.
 Qed.
@@ -674,18 +674,36 @@ Proof.
   exists (17, 0, 98), (-87, 0, 50), (64, 0, 76). repeat split; try (vm_compute; congruence).
 Qed.
 
-(* arc from the equator (lon 0) over the south pole to lat -80.2 (lon 180): a point of the arc is rejected *)
-Lemma c14_pwg_equator_endpoint_refuted :
-  exists a b p, c14_cross a b <> (0, 0, 0) /\ c14_on_arc a b p = true /\ c14_pwg a b p = Some false.
+(* _decide_pole_latitude no longer depends on the order of the endpoints (it did before the fix b3cc87d4, for an
+   endpoint exactly on the equator): for latitudes of different absolute value the same pole is chosen *)
+Lemma c14_lat_le_abs_total l1 l2 :
+  c14_lat_le (c14_lat_abs l1) (c14_lat_abs l2) = false -> c14_lat_le (c14_lat_abs l2) (c14_lat_abs l1) = true.
 Proof.
-  exists (1, 0, 0), (-17, 0, -98), (-8, 0, -99). repeat split; try (vm_compute; congruence).
+  destruct l1 as [s1 q1], l2 as [s2 q2]. unfold c14_lat_le, c14_lat_abs. cbn [fst snd].
+  destruct (Z.leb_spec (Z.abs s1) 0); destruct (Z.leb_spec 0 (Z.abs s2)); destruct (Z.leb_spec (Z.abs s2) 0);
+    destruct (Z.leb_spec 0 (Z.abs s1)); try discriminate; try reflexivity; try lia.
 Qed.
 
-(* swapping the endpoints changes the answer: arc between the south pole and the equator point at lon 90 *)
+Lemma c14_decide_pole_sym l1 l2 :
+  c14_lat_le (c14_lat_abs l1) (c14_lat_abs l2) = false ->      (* |lat2| < |lat1| *)
+  c14_decide_pole l1 l2 = c14_decide_pole l2 l1.
+Proof.
+  intros H. unfold c14_decide_pole. rewrite H, (c14_lat_le_abs_total l1 l2 H). reflexivity.
+Qed.
+
+(* the inputs that refuted the property before the fixes now agree with the specification *)
+Example c14_ex_equator_endpoint_fixed :
+  c14_pwg (1, 0, 0) (-17, 0, -98) (-8, 0, -99) = Some (c14_on_arc (1, 0, 0) (-17, 0, -98) (-8, 0, -99)) /\
+  c14_pwg (0, 1, 0) (0, 0, -1) (0, 3, 4) = Some (c14_on_arc (0, 1, 0) (0, 0, -1) (0, 3, 4)) /\
+  c14_pwg (0, 0, -1) (0, 1, 0) (0, 3, 4) = Some (c14_on_arc (0, 0, -1) (0, 1, 0) (0, 3, 4)).
+Proof. repeat split; vm_compute; reflexivity. Qed.
+
+(* swapping the endpoints still changes the answer in the pole branch: arc from (lon 90, lat -18.4) to the south pole,
+   query = the south pole itself *)
 Lemma c14_pwg_swap_refuted :
   exists a b p, c14_cross a b <> (0, 0, 0) /\ c14_pwg a b p <> c14_pwg b a p.
 Proof.
-  exists (0, 1, 0), (0, 0, -1), (0, 3, 4). split; vm_compute; congruence.
+  exists (0, 3, -1), (0, 0, -1), (0, 0, -2). split; vm_compute; congruence.
 Qed.
 
 (* ------------------------------------------------------------------------------------------ *)
